@@ -85,7 +85,7 @@ func init() {
 			{Name: "clisim-c13-dryrun", Fn: clisim.C13Dry, ProcessLevel: true, NeedsCLI: true, Runs: map[string]int{"quick": 400, "thorough": 10000}},
 		},
 		Rule:           "apply part: generated directory (1-4 files x 1-4 statements, real DDL mixed in) with at most one statement that fails at execution time at a drawn (file, statement), global --tx-mode stratified over the run index x per-file atlas:txmode directives x optional count argument x optional earlier clean apply; then fix + re-hash + re-run. schema part: initial schema applied by the CLI, rows with duplicates/NULLs/negatives inserted, desired schema = one drawn change per table of which at most one cannot succeed on the data (UNIQUE on duplicates, NOT NULL on NULLs, violated CHECK), --dry-run then default mode then --tx-mode none as reach probe. dry-run part: migrate apply --dry-run on fresh / initialised / dirty databases x count x tx-mode x --baseline / --allow-dirty. distinct = distinct trace hash among runs that executed at least one apply",
-		RequiredProbes: []string{"partial-prefix-recorded", "rolled-back-after-progress", "plan-failed-after-progress", "dry-run:fresh:baseline", "dry-run:dirty:baseline", "dry-run:initialised:plain", "dry-run:dirty:allow-dirty"},
+		RequiredProbes: []string{"second-failure-after-fix", "partial-prefix-recorded", "rolled-back-after-progress", "plan-failed-after-progress", "dry-run:fresh:baseline", "dry-run:dirty:baseline", "dry-run:initialised:plain", "dry-run:dirty:allow-dirty"},
 		RequiredFaults: []string{"statement-failure-or-directive-conflict", "dry-run", "plan-fails-on-data/unique-on-duplicates", "plan-fails-on-data/not-null-on-nulls", "plan-fails-on-data/check-violated-by-rows"},
 		Real:           []string{"the whole CLI binary (cmdapi tx multiplexer, dry-run wrappers, Executor, ent revision store, SQLite driver)", "SQLite engine and files"},
 		Stub:           []string{"none (independent mattn/go-sqlite3 observer)"},
@@ -102,7 +102,7 @@ func init() {
 			{Name: "clisim-c12", Fn: clisim.C12CLI, ProcessLevel: true, NeedsCLI: true, Runs: map[string]int{"quick": 400, "thorough": 12000}},
 		},
 		Rule:           "one run = victim file of 1-5 statements (optional complete predecessor / pending successor), partially applied to progress k by an injected persistent statement failure, then one edit (change/insert/delete/swap/truncate/append at a drawn index, truncation may go below k), re-hash, apply, apply again; distinct = distinct trace hash",
-		RequiredProbes: []string{"partial-with-applied-statements", "edit-touches-applied-part", "fewer-statements-than-applied", "edit-of-unapplied-tail", "tail-edit-changes-length"},
+		RequiredProbes: []string{"second-failure-in-the-same-file", "partial-with-applied-statements", "edit-touches-applied-part", "fewer-statements-than-applied", "edit-of-unapplied-tail", "tail-edit-changes-length"},
 		RequiredFaults: []string{"stmt-persistent", "stmt-failure"},
 		Real:           []string{"clisim part: the whole CLI binary + SQLite (migrate apply --tx-mode none, migrate hash)", "migrate.Executor (Pending, Execute: partial-hash comparison, resume)", "migrate.MemDir, HashFile, statement scanner"},
 		Stub:           []string{"database (SimDriver)", "revision store (SimRevs)"},
